@@ -178,7 +178,14 @@ fn handovers(rng: &mut Rng, initial: usize, max: usize, pinned: usize, until: In
         // end the previous short job and submit the next one `spins` later
         if let Some(p) = prev_release.take() {
             p.store(true, Ordering::SeqCst);
-            for _ in 0..rng.below(if n % 4 == 0 { 3000 } else { 300 }) {
+            // sweep the submission instant across the worker's way back to the queue (a few
+            // microseconds): mostly 0-2000 spins, sometimes much shorter or longer
+            let span = match n % 8 {
+                0 => 20_000,
+                1 | 2 => 300,
+                _ => 2_000,
+            };
+            for _ in 0..rng.below(span) {
                 std::hint::spin_loop();
             }
         }
@@ -273,7 +280,7 @@ pub fn run(ctx: &Ctx) {
     let _ = std::panic::take_hook();
     std::panic::set_hook(prev_hook);
     // second half: tight hand-overs, one pool per lane
-    let until = Instant::now() + Duration::from_secs(ctx.tier.pick(5, 120));
+    let until = Instant::now() + Duration::from_secs(ctx.tier.pick(10, 120));
     par(nthreads, |w| {
         let mut rng = Rng::lane(ctx.seed, 5300 + w as u64);
         let (initial, max, pinned) = [(1usize, 1usize, 0usize), (1, 3, 2), (2, 2, 1), (1, 2, 1)][w % 4];
